@@ -5,6 +5,22 @@
 use libfuzzer_sys::fuzz_target;
 use tera::{Context, Delimiters, Tera};
 
+/// Output is a resource question, not a parsing one: a writer that refuses to grow past 1 MiB turns a render that keeps
+/// writing into an ordinary I/O error.
+struct Capped(usize);
+impl std::io::Write for Capped {
+    fn write(&mut self, data: &[u8]) -> std::io::Result<usize> {
+        if self.0 + data.len() > (1 << 20) {
+            return Err(std::io::Error::other("output cap"));
+        }
+        self.0 += data.len();
+        Ok(data.len())
+    }
+    fn flush(&mut self) -> std::io::Result<()> {
+        Ok(())
+    }
+}
+
 fuzz_target!(|data: &[u8]| {
     let Ok(s) = std::str::from_utf8(data) else { return };
     // nested range loops are a resource question, not a parsing one
@@ -34,7 +50,7 @@ fuzz_target!(|data: &[u8]| {
         let _ = e.to_string();
     }
     if src.len() < 4096 {
-        if let Err(e) = tera.render_str(src, &Context::new(), true) {
+        if let Err(e) = tera.render_str_to(src, &Context::new(), true, Capped(0)) {
             let _ = e.to_string();
         }
     }
